@@ -22,6 +22,9 @@ func main() {
 		os.Exit(sup.WorkerMain(os.Args[2:]))
 	case "replay":
 		os.Exit(sup.ReplayMain(os.Args[2:]))
+	case "case":
+		// vcheck case <prop> <tier> <seed> <idx>: run one case in-process, print the result (debugging aid)
+		os.Exit(sup.CaseMain(os.Args[2:]))
 	case "list":
 		for _, id := range core.IDs() {
 			fmt.Println(id)
